@@ -399,8 +399,10 @@ pub fn tree_events(t: &Tables, cmds: &[String], dir: &str, nshards: usize, depth
         };
         let kd = horizon(&full, dd as i64).unwrap_or(0);
         let infos: Vec<Value> = full.infos.iter().filter(|i| i["q"].as_u64().unwrap_or(0) <= kd && i["depth"].as_i64().unwrap_or(99) <= dd as i64).cloned().collect();
-        let mut sends: Vec<Value> = full.sends.iter().filter(|i| i["q"].as_u64().unwrap_or(0) <= kd).cloned().collect();
-        sends.truncate(infos.len());
+        // boards handed over before the first line of a deeper iteration (which line of which depth a board belongs to is
+        // decided by the clock-query order in the specification, not by position in the list: an engine may report every
+        // improvement or one line per iteration)
+        let sends: Vec<Value> = full.sends.iter().filter(|i| i["q"].as_u64().unwrap_or(0) < kd).cloned().collect();
         let nn = tree["nodes"].as_array().unwrap().len();
         (Some(json!({"ev": "stree", "cmd": cmd, "root": t.state(&sc.board), "D": dd, "tree": tree,
                      "infos": infos, "sends": sends, "panic": full.panic})),
